@@ -273,4 +273,6 @@ RULES = [
     ("R6", "only indices/names of the map's own exchange translate", r6),
     ("IDX.R9", "IndexedInstruments lookups: first match over the full vector; key <-> value inverses", common_idx.idx_r9),
     ("IDX.R10", "add_instrument registers the exchange, the instrument and every asset it refers to", common_idx.idx_r10),
+    ("IDX.R11", "key translation is role-preserving: each rebuilt field comes from the same field of the source", common_idx.idx_r11),
+    ("IDX.R12", "by-name state tables are keyed by the indexed entity's own name", common_idx.idx_r12),
 ]
